@@ -464,6 +464,11 @@ pub fn reported_precision(frequency: Option<u64>) -> u128 {
     .picos
 }
 
+/// An empty entry list (the constructor of list heads is crate-private).
+pub fn entry_list_root<T: 'static>() -> crate::entry::EntryList<T> {
+    crate::entry::EntryList::root()
+}
+
 // ---------------------------------------------------------------------------
 // Formatting
 // ---------------------------------------------------------------------------
